@@ -2121,7 +2121,7 @@ class ktensor:
 
         factor_matrices = []
         for i in remdims:
-            factor_matrices.append(self.factor_matrices[i])
+            factor_matrices.append(self.factor_matrices[i].copy(order=self.order))
         return ttb.ktensor(factor_matrices, new_weights, copy=False)
 
     def update(self, modes: OneDArray, data: np.ndarray) -> ktensor:
